@@ -114,7 +114,10 @@ def Val.toRat : Val → Rat
   | .q r => r
   | .pct _ _ => 0
 
-/-- the statistics computed from one file of each kind -/
+/-- the statistics computed from one file of each kind, and which files the real code accepts at
+all: it raises on a selected timeseries / emissions / estimate file without data rows
+(`np.percentile` of an empty column: IndexError; `groupby(...).apply` of an empty frame:
+AttributeError) and the whole summarisation stops.  `ts`/`emis`/`est` say nothing about rejected files. -/
 structure Stats (κ : Type) where
   ts : κ → List Val
   emis : κ → List Val
@@ -122,6 +125,9 @@ structure Stats (κ : Type) where
   rep : κ → List Rat
   nEmis : Nat
   nYears : Nat
+  okTs : κ → Bool
+  okEmis : κ → Bool
+  okEst : κ → Bool
 
 /-! ### one summary table from one listing -/
 
@@ -134,6 +140,10 @@ def summarize {κ α : Type} (suf : Name) (f : κ → α) (listing : List (File 
 /-- the real code raises (`None.group`) on a selected file whose name the extraction regex rejects -/
 def wellNamed {κ : Type} (suf : Name) (listing : List (File κ)) : Bool :=
   listing.all fun e => !(hasSuffix suf e.name && !isKept e.name) || (parseName e.name).isSome
+
+/-- some file selected by the pattern (and not kept) is one the real code raises on -/
+def rejectsListing {κ : Type} (suf : Name) (ok : κ → Bool) (listing : List (File κ)) : Bool :=
+  listing.any fun e => hasSuffix suf e.name && !isKept e.name && !ok e.content
 
 def floorSub (a b : Rat) : Rat := max (a - b) 0
 
@@ -190,6 +200,11 @@ structure St (κ : Type) where
   ts : Table (List Val)
   emis : Table (List Val)
 
+/-- `gen_summary_outputs` raises for these listings (nothing is written, the run stops) -/
+def rejectsVisit {κ : Type} (S : Stats κ) (visit : List (Name × Listings κ)) : Bool :=
+  visit.any fun v => rejectsListing tsSuffix S.okTs v.2.ts || rejectsListing emisSuffix S.okEmis v.2.emis
+    || rejectsListing estSuffix S.okEst v.2.est
+
 def progDirs {κ : Type} (st : St κ) : List (Name × List (File κ)) :=
   st.dirs.filter fun pd => pd.1 != logsName
 
@@ -245,9 +260,26 @@ def runBatches {κ : Type} (S : Stats κ) (W : Name → Nat → SimOut κ) (keep
     let st1 := writeBatch W (batchSims b c) st
     runBatches S W keepAll σ (b + 1) cs (genAll S (b != 0 && !keepAll) (visitOf σ b st1) st1)
 
+def initSt {κ : Type} (progs : List Name) : St κ := { dirs := progs.map fun p => (p, []), ts := [], emis := [] }
+
 def runAll {κ : Type} (S : Stats κ) (W : Name → Nat → SimOut κ) (progs : List Name) (keepAll : Bool)
     (σ : Sched κ) (n : Nat) : St κ :=
-  runBatches S W keepAll σ 0 (batchSimulations n) { dirs := progs.map fun p => (p, []), ts := [], emis := [] }
+  runBatches S W keepAll σ 0 (batchSimulations n) (initSt progs)
+
+/-- does some `gen_summary_outputs` call of the batch loop raise? -/
+def runRejects {κ : Type} (S : Stats κ) (W : Name → Nat → SimOut κ) (keepAll : Bool) (σ : Sched κ) :
+    Nat → List Nat → St κ → Bool
+  | _, [], _ => false
+  | b, c :: cs, st =>
+    let st1 := writeBatch W (batchSims b c) st
+    rejectsVisit S (visitOf σ b st1)
+      || runRejects S W keepAll σ (b + 1) cs (genAll S (b != 0 && !keepAll) (visitOf σ b st1) st1)
+
+/-- the run as the real code behaves: `none` when a summarisation call raises -/
+def runAllChecked {κ : Type} (S : Stats κ) (W : Name → Nat → SimOut κ) (progs : List Name) (keepAll : Bool)
+    (σ : Sched κ) (n : Nat) : Option (St κ) :=
+  if runRejects S W keepAll σ 0 (batchSimulations n) (initSt progs) then none
+  else some (runAll S W progs keepAll σ n)
 
 /-! ### cost summary -/
 
@@ -330,6 +362,7 @@ inductive Content where
   | other
 
 def sumI (l : List Int) : Rat := ((l.foldl (· + ·) 0 : Int) : Rat)
+/-- only meaningful for a non-empty column (`okTs` / `okEmis` below guard every use) -/
 def meanI (l : List Int) : Rat := sumI l / (l.length : Rat)
 def sumR (l : List Rat) : Rat := l.foldl (· + ·) 0
 def meanR (l : List Rat) : Rat := sumR l / (l.length : Rat)
@@ -340,26 +373,29 @@ def maxDate (l : List (Option Date)) : Option Date :=
     | some a, none => some a
     | some a, some b => if a.ord < b.ord then some b else some a) none
 
+/-- contribution of one row to the yearly value (`none`: filtered out); `mx` = latest end date of
+the frame -/
+def rowShare (mx : Option Date) (year : Nat) (r : Int × Option Date × Option Date) : Option Rat :=
+  match r.2.1 with
+  | none => none
+  | some st =>
+    if st.y ≤ year && (match r.2.2 with | none => true | some e => decide (year ≤ e.y)) then
+      let en : Date := match r.2.2 with
+        | some e => e
+        | none => { y := (match mx with | some m => m.y | none => year), m := 12, d := 31 }
+      let soy : Date := { y := year, m := 1, d := 1 }
+      let eoy : Date := { y := year, m := 12, d := 31 }
+      let tt : Int × Int :=
+        if st.y = year ∧ en.y = year then (1, 1)
+        else if st.y = year then (en.ord - st.ord + 1, eoy.ord - st.ord + 1)
+        else if en.y = year then (en.ord - st.ord + 1, en.ord - soy.ord + 1)
+        else (en.ord - st.ord + 1, eoy.ord - soy.ord + 1)
+      some ((r.1 : Rat) * ((tt.2 : Rat) / (tt.1 : Rat)))
+    else none
+
 /-- `get_yearly_value_for_multi_day_stat` on rows (value, start, end) of one frame -/
 def yearlyShare (rows : List (Int × Option Date × Option Date)) (year : Nat) : Rat :=
-  let mx := maxDate (rows.map fun r => r.2.2)
-  sumR (rows.filterMap fun r =>
-    match r.2.1 with
-    | none => none
-    | some st =>
-      if st.y ≤ year && (match r.2.2 with | none => true | some e => decide (year ≤ e.y)) then
-        let en : Date := match r.2.2 with
-          | some e => e
-          | none => { y := (match mx with | some m => m.y | none => year), m := 12, d := 31 }
-        let soy : Date := { y := year, m := 1, d := 1 }
-        let eoy : Date := { y := year, m := 12, d := 31 }
-        let tt : Int × Int :=
-          if st.y = year ∧ en.y = year then (1, 1)
-          else if st.y = year then (en.ord - st.ord + 1, eoy.ord - st.ord + 1)
-          else if en.y = year then (en.ord - st.ord + 1, en.ord - soy.ord + 1)
-          else (en.ord - st.ord + 1, eoy.ord - soy.ord + 1)
-        some ((r.1 : Rat) * ((tt.2 : Rat) / (tt.1 : Rat)))
-      else none)
+  sumR (rows.filterMap (rowShare (maxDate (rows.map fun r => r.2.2)) year))
 
 def dedup (l : List Nat) : List Nat := l.foldl (fun acc x => if acc.contains x then acc else acc ++ [x]) []
 
@@ -413,6 +449,9 @@ def repStat (years : List Nat) : Content → List Rat
 
 def concreteStats (years : List Nat) : Stats Content :=
   { ts := tsStat, emis := emisStat years, est := estStat years, rep := repStat years,
-    nEmis := 11 + 2 * years.length, nYears := years.length }
+    nEmis := 11 + 2 * years.length, nYears := years.length,
+    okTs := fun c => match c with | .ts rows => !rows.isEmpty | _ => false,
+    okEmis := fun c => match c with | .emis rows => !rows.isEmpty | _ => false,
+    okEst := fun c => match c with | .est rows => !rows.isEmpty | _ => false }
 
 end LdarModel.Summary
